@@ -107,6 +107,67 @@ def impl_call(case, verbose=-1, raw=False):
     return ("Ok", (int(A), int(Z), str(E), repr(float(m)), bool(real), str(user)))
 
 
+def label_spec(s):
+    """Independent statement of the label grammar (mirror of the inductive relation Label in
+    coq/Proofs/NucleusLabel.v), without re: returns (A, Z, E, mass_text, real, user) or None."""
+    def digits(t):
+        return t != "" and all(c in "0123456789" for c in t)
+
+    def word(t):
+        return t != "" and all(c in "0123456789_" or c in string.ascii_letters for c in t)
+
+    ghost, closing = False, ""
+    if s.startswith("@"):
+        bodies = [(s[1:], True, "")]
+    elif len(s) >= 3 and s[0] in "Gg" and s[1] in "Hh" and s[2] == "(":
+        bodies = [(s[3:], True, ")")]
+    else:
+        bodies = []
+    bodies.append((s, False, ""))
+    for body, gh, close in bodies:
+        if close:
+            if not body.endswith(close):
+                continue
+            body = body[:-1]
+        mass = None
+        core = body
+        if "@" in body:
+            core, _, mt = body.partition("@")
+            d1, dot, d2 = mt.partition(".")
+            if not (dot and digits(d1) and digits(d2)):
+                continue
+            mass = mt
+        # core = digits? letters{1,3} (_word+ | digits)?   |   digits{1,3} (_word+)?
+        i = 0
+        while i < len(core) and core[i] in "0123456789":
+            i += 1
+        lead, rest = core[:i], core[i:]
+        j = 0
+        while j < len(rest) and rest[j] in string.ascii_letters:
+            j += 1
+        sym, user = rest[:j], rest[j:]
+        if 1 <= len(sym) <= 3 and (user == "" or digits(user) or (user[0] == "_" and word(user[1:]))):
+            return (int(lead) if lead else None, None, sym, mass, not gh, user or None)
+        if sym == "" and 1 <= len(lead) <= 3 and (user == "" or (user[0] == "_" and word(user[1:]))):
+            return (None, int(lead), None, mass, not gh, user or None)
+    return None
+
+
+def label_oracle(s, out):
+    spec = label_spec(s)
+    if out[0] == "Err":
+        if out[1] != "Validation":
+            return f"parse_nucleus_label raised {out[1]}"
+        return "a string of the label grammar is refused" if spec is not None else None
+    if spec is None:
+        return "parse_nucleus_label accepts a string outside the label grammar"
+    A, Z, E, m, real, user = out[1]
+    sm = None if spec[3] is None else repr(float(spec[3]))
+    if (A, Z, E, m, real, user) != (spec[0], spec[1], spec[2], sm, spec[4], spec[5]):
+        return f"parse_nucleus_label returns fields other than the grammar's: expected {spec}"
+    return None
+
+
 def impl_parse(label):
     from qcelemental.molparse import parse_nucleus_label
     try:
@@ -129,18 +190,16 @@ EK = {"Validation": "Validation", "NotAnElement": "NotAnElement", "ValueError": 
 
 
 def in_term(c):
-    return ("{| nA := %s; nZ := %s; nE := %s; nmass := %s; nreal := %s; nlabel := %s; speclabel := %s; "
-            "nonphysical := %s; mtol := %s |}" % (
-                copt(c.get("A"), cz), copt(c.get("Z"), cz), copt(c.get("E"), cstr), copt(c.get("mass"), qdec),
-                copt(c.get("real"), cbool), copt(c.get("label"), cstr), cbool(c.get("speclabel", True)),
-                cbool(c.get("nonphysical", False)), qdec(c.get("mtol", "0.001"))))
+    return "(Build_nuc_in %s %s %s %s %s %s %s %s %s)" % (
+        copt(c.get("A"), cz), copt(c.get("Z"), cz), copt(c.get("E"), cstr), copt(c.get("mass"), qdec),
+        copt(c.get("real"), cbool), copt(c.get("label"), cstr), cbool(c.get("speclabel", True)),
+        cbool(c.get("nonphysical", False)), qdec(c.get("mtol", "0.001")))
 
 
 def out_term(out):
     if out[0] == "Ok":
         A, Z, E, m, real, user = out[1]
-        return "(Ok {| oA := %s; oZ := %s; oE := %s; omass := %s; oreal := %s; ouser := %s |})" % (
-            cz(A), cz(Z), cstr(E), qdec(m), cbool(real), cstr(user))
+        return "(Ok (Build_nuc_out %s %s %s %s %s %s))" % (cz(A), cz(Z), cstr(E), qdec(m), cbool(real), cstr(user))
     return f"(Err {EK.get(out[1], 'PyAssertion')})"
 
 
@@ -556,6 +615,35 @@ def gen_edges(ctx, T, n):
     return cases
 
 
+def gen_wide(ctx, T, n):
+    """tolerances at and beyond the isotope spacing (outside the fixed-point theorem's 0 < mtol <= 1/4)"""
+    rng = ctx.rng
+    els = T["E"][1:]
+    cases = []
+    while len(cases) < n:
+        el = rng.choice(els)
+        iso = T["iso"][el]
+        a = rng.choice(sorted(iso))
+        c = {"Z": T["e2z"][el], "mtol": rng.choice(["0.4", "0.7", "1.5", "2.0"]), "speclabel": True, "nonphysical": False, "wide": True}
+        k = rng.random()
+        if k < 0.5:
+            c["A"] = a
+        if k > 0.3:
+            c["mass"] = fmt_mass(Decimal(iso[a]) + Decimal(rng.choice(["0", "0.013", "-0.21", "0.33", "0.61"])))
+        if min_edge_distance(T, c) >= SLACK:
+            cases.append(c)
+    return cases
+
+
+def is_wide_mismatch(T, case, out):
+    """mtol beyond the isotope spacing and the returned mass does not round to the returned mass number"""
+    try:
+        A, Z, E, mrepr, real, user = out[1]
+        return float(case.get("mtol", "0.001")) > 1.0 and A != -1 and round(float(mrepr)) != A
+    except Exception:
+        return False
+
+
 def perturbed(c, delta):
     d = dict(c)
     d["mass"] = fmt_mass(Decimal(c["mass"]) + delta)
@@ -564,10 +652,44 @@ def perturbed(c, delta):
 
 # ------------------------------------------------------------------------------------------------
 
+def _run_kw(kw):
+    from qcelemental.molparse import reconcile_nucleus
+    try:
+        with contextlib.redirect_stdout(io.StringIO()):
+            r = reconcile_nucleus(verbose=-1, **kw)
+        return ("Ok", tuple(r))
+    except Exception as e:
+        return ("Err", ekind_of(e))
+
+
+def fresh_eval(kw):
+    """evaluate one query in a forked child of this process, so that nothing the query does (cache fills, any
+    other state) is seen by later queries, and nothing earlier queries did after the fork point is seen by it"""
+    r, w = os.pipe()
+    pid = os.fork()
+    if pid == 0:
+        try:
+            os.close(r)
+            os.write(w, repr(_run_kw(kw)).encode())
+        finally:
+            os._exit(0)
+    os.close(w)
+    buf = b""
+    while True:
+        chunk = os.read(r, 65536)
+        if not chunk:
+            break
+        buf += chunk
+    os.close(r)
+    os.waitpid(pid, 0)
+    return eval(buf.decode())   # a tuple literal written by the child above
+
+
 def history_stream(ctx, T, corr):
-    """The same queries in permuted orders, with int/float/bool spellings of equal keys (1 == 1.0 == True
-    collide in the lru_cache key), with and without cache_clear(); every answer must equal the answer of a
-    fresh evaluation of the canonical spelling."""
+    """Run before anything else in this process has called reconcile_nucleus.  The same queries in permuted
+    orders, with int/float/bool spellings of equal keys (1 == 1.0 == True collide in the lru_cache key), with and
+    without cache_clear(); every answer must equal the answer the canonical spelling gets in a pristine
+    process state (forked child)."""
     from qcelemental.molparse import reconcile_nucleus
     rng = ctx.rng
     base = []
@@ -590,8 +712,6 @@ def history_stream(ctx, T, corr):
                 alt[k] = [int(v), float(v)]
             elif k == "mass" and float(v).is_integer():
                 alt[k] = [int(v)] + ([True] if v == 1 else [])
-            elif k in ("speclabel", "nonphysical"):
-                pass
         for k, vs in alt.items():
             for v in vs:
                 out.append(dict(kw, **{k: v}))
@@ -599,37 +719,37 @@ def history_stream(ctx, T, corr):
             out.append({"A": kw["A"], "Z": kw["Z"], **{k: v for k, v in kw.items() if k not in ("A", "Z")}})
         return out
 
-    def run(kw):
-        try:
-            with contextlib.redirect_stdout(io.StringIO()):
-                r = reconcile_nucleus(verbose=-1, **kw)
-            return ("Ok", tuple(r))
-        except Exception as e:
-            return ("Err", ekind_of(e))
+    hits = [0]
 
-    reference = {}
-    for i, kw in enumerate(base):
+    def clear():
+        hits[0] += reconcile_nucleus.cache_info().hits
         reconcile_nucleus.cache_clear()
-        reference[i] = run(kw)
+
+    reference = {i: fresh_eval(kw) for i, kw in enumerate(base)}
     calls = [(i, sp) for i, kw in enumerate(base) for sp in spellings(kw)]
+    prefix = []
     for rnd in range(3 if not ctx.thorough else 10):
         rng.shuffle(calls)
         if rnd % 2 == 0:
-            reconcile_nucleus.cache_clear()
+            clear()
+            prefix.append("cache_clear")
         for j, (i, sp) in enumerate(calls):
             if rnd == 2 and j % 7 == 0:
-                reconcile_nucleus.cache_clear()
-            got = run(sp)
+                clear()
+                prefix.append("cache_clear")
+            got = _run_kw(sp)
             corr.count("history")
             if got != reference[i]:
-                corr.failures.append({"stream": "history", "case": {"call": repr(sp), "canonical": repr(base[i]), "round": rnd},
+                corr.failures.append({"stream": "history",
+                                      "case": {"call": repr(sp), "canonical": repr(base[i]), "round": rnd, "prefix": list(prefix[-4000:])},
                                       "what": "answer depends on earlier calls / on the spelling of an equal argument",
                                       "observed": [repr(reference[i]), repr(got)]})
-                if len(corr.failures) > 20:
+                if sum(1 for f in corr.failures if f["stream"] == "history") > 5:
+                    clear()
                     return
-    ci = reconcile_nucleus.cache_info()
-    corr.hit("history_cache_hits", ci.hits)
-    reconcile_nucleus.cache_clear()
+            prefix.append(repr(sp))
+    clear()
+    corr.hit("history_cache_hits", hits[0])
 
 
 def verbose_stream(ctx, T, corr, cases):
@@ -666,6 +786,9 @@ CORPUS = [
     {"Z": 0}, {"Z": 0, "nonphysical": True}, {"E": "x", "A": 0, "mass": "0.0"}, {"Z": 1, "A": 2}, {"E": "D"}, {"E": "27"},
     {"E": "cobalt"}, {}, {"A": 1}, {"mass": "1.0"}, {"label": "_x", "speclabel": False},
     {"Z": 1, "label": "_X1", "speclabel": False}, {"Z": 1, "label": "H_X1", "parts": {"E": "H", "user": "_X1"}},
+    # fixed finding C06-mtol-boundary-feedback (af456dc): mass exactly mtol from m(Co-59); its output must feed back
+    {"Z": 27, "mass": "59.43319429", "mtol": "0.5"}, {"Z": 27, "mass": "59.18319429", "mtol": "0.25"},
+    {"Z": 27, "mass": "58.80819429", "mtol": "0.125", "A": 59},
 ]
 
 
@@ -680,13 +803,15 @@ def correspond(ctx):
     pattern_changed = pat != NUCLEUS_NORMALISED
     if pattern_changed:
         corr.notes.append("regex.NUCLEUS differs textually from the pattern the recogniser was written against; label stream enlarged")
-    n_main = 150000 if ctx.thorough else 24000
-    n_lab = (200000 if ctx.thorough else 12000) * (3 if pattern_changed else 1)
-    n_edge = 20000 if ctx.thorough else 2500
+    n_main = 150000 if ctx.thorough else 16000
+    n_lab = (200000 if ctx.thorough else 9000) * (3 if pattern_changed else 1)
+    n_edge = 20000 if ctx.thorough else 2000
+    n_wide = 4000 if ctx.thorough else 600
+    history_stream(ctx, T, corr)     # first: nothing in this process has called reconcile_nucleus yet
 
     # ---- main stream
     raw_cases = [dict(c, mtol=c.get("mtol", "0.001"), speclabel=c.get("speclabel", True), nonphysical=c.get("nonphysical", False))
-                 for c in CORPUS] + gen_main(ctx, T, n_main)
+                 for c in CORPUS] + gen_main(ctx, T, n_main) + gen_wide(ctx, T, n_wide)
     edge_cases = gen_edges(ctx, T, n_edge)
     main_cases = []
     for c in raw_cases:
@@ -699,7 +824,7 @@ def correspond(ctx):
     fb_known = 0
     for k, c in enumerate(main_cases):
         out = impl_call(c)
-        stream = "corpus" if k < len(CORPUS) else "main"
+        stream = "corpus" if k < len(CORPUS) else ("wide" if c.get("wide") else "main")
         corr.count(stream)
         corr.hit("impl_" + (out[0] if out[0] == "Ok" else "Err_" + out[1]))
         if out[0] == "Ok":
@@ -711,12 +836,12 @@ def correspond(ctx):
         bad = oracle(T, c, out) or oracle_feedback(c, out)
         if bad:
             corr.failures.append({"stream": "oracle", "case": {"input": public(c)}, "what": bad, "observed": out,
-                                  "mtol_boundary": is_mtol_boundary(T, c, out)})
+                                  "mtol_boundary": is_mtol_boundary(T, c, out), "wide_mismatch": is_wide_mismatch(T, c, out)})
         terms.append(f"({in_term(c)}, {out_term(out)})")
         meta.append((stream, c, out))
     corr.sample({"input": public(main_cases[0]), "output": impl_call(main_cases[0])})
     ctx.log(f"{len(terms)} main cases through the implementation; evaluating the model")
-    bad, errors = coqrun.eval_bad_indices("C06", REQ, "", "check_case", terms, shard=800, ty="nuc_in * outcome nuc_out")
+    bad, errors = coqrun.eval_bad_indices("C06", REQ, "", "check_case", terms, shard=1500, ty="nuc_in * outcome nuc_out")
     corr.errors.extend(f"main shard {k}: {e}" for k, e in errors)
     for b in bad[:8]:
         stream, c, out = meta[b]
@@ -734,8 +859,9 @@ def correspond(ctx):
         corr.hit("label_" + (out[0] if out[0] == "Ok" else "Err_" + out[1]))
         if out[0] == "Ok":
             corr.nontriv({"label": s})
-        elif out[1] != "Validation":
-            corr.failures.append({"stream": "labels", "case": {"label": s}, "what": f"parse_nucleus_label raised {out[1]}", "observed": out})
+        badl = label_oracle(s, out)
+        if badl:
+            corr.failures.append({"stream": "labels", "case": {"label": s}, "what": badl, "observed": out})
         lterms.append(f"({cstr(s)}, {label_out_term(out)})")
         lmeta.append((s, out))
     bad, errors = coqrun.eval_bad_indices("C06L", REQ, "", "check_label", lterms, shard=3000, ty="string * outcome label_fields")
@@ -755,10 +881,10 @@ def correspond(ctx):
         badw = oracle(T, c, out) or oracle_feedback(c, out)
         if badw:
             corr.failures.append({"stream": "edges", "case": {"input": public(c)}, "what": badw, "observed": out,
-                                  "mtol_boundary": is_mtol_boundary(T, c, out)})
-        lo, hi = perturbed(c, -d), perturbed(c, d)
-        if "parts" in c and c["parts"].get("mass") is not None:
+                                  "mtol_boundary": is_mtol_boundary(T, c, out), "wide_mismatch": is_wide_mismatch(T, c, out)})
+        if c.get("mass") is None or ("parts" in c and c["parts"].get("mass") is not None):
             continue   # drifted label masses: judged by the oracle only
+        lo, hi = perturbed(c, -d), perturbed(c, d)
         eterms.append(f"(({in_term(c)}, {in_term(lo)}), ({in_term(hi)}, {out_term(out)}))")
         emeta.append((c, out))
     bad, errors = coqrun.eval_bad_indices("C06E", REQ, EDGE_PRELUDE, "check_edge", eterms, shard=500,
@@ -769,8 +895,7 @@ def correspond(ctx):
         got, _ = coqrun.eval_terms("C06E", REQ, "", [f"reconcile {in_term(c)}"])
         corr.disagreements.append({"stream": "edges", "case": {"input": public(c)}, "impl": out, "model": got})
 
-    # ---- history + verbose streams (implementation only)
-    history_stream(ctx, T, corr)
+    # ---- verbose stream (implementation only)
     verbose_stream(ctx, T, corr, [c for c in main_cases[:len(CORPUS)]] + ctx.rng.sample(main_cases, 60))
     corr.exhaustive = False
     return corr
@@ -793,14 +918,15 @@ Definition check_edge (p : (nuc_in * nuc_in) * (nuc_in * outcome nuc_out)) : boo
 def search(ctx, corr, reasons):
     T = table(ctx)
     found = []
+    seen = {repr(f.get("case")) for f in corr.failures}
     for d in corr.disagreements:
-        if "input" in d["case"]:
+        if "input" in d["case"] and repr(d["case"]) not in seen:
             c = d["case"]["input"]
             out = impl_call(c)
             bad = oracle(T, c, out) or oracle_feedback(c, out)
             if bad:
                 found.append({"stream": "search", "case": {"input": c}, "what": bad, "observed": out,
-                              "mtol_boundary": is_mtol_boundary(T, c, out)})
+                              "mtol_boundary": is_mtol_boundary(T, c, out), "wide_mismatch": is_wide_mismatch(T, c, out)})
     return found
 
 
@@ -819,27 +945,25 @@ def replay(ctx, rp):
         return {"input": c, "implementation": out, "oracle": bad, "fails": bool(bad)}
     if "label" in case:
         out = impl_parse(case["label"])
-        bad = out[0] == "Err" and out[1] != "Validation"
-        return {"label": case["label"], "implementation": out, "fails": bool(bad)}
+        bad = label_oracle(case["label"], out)
+        return {"label": case["label"], "implementation": out, "oracle": bad, "fails": bool(bad)}
     if "call" in case:
         from qcelemental.molparse import reconcile_nucleus
         kw, canon = eval(case["call"]), eval(case["canonical"])   # dict literals written by this module
-        reconcile_nucleus.cache_clear()
-        try:
-            ref = ("Ok", tuple(reconcile_nucleus(verbose=-1, **canon)))
-        except Exception as e:
-            ref = ("Err", ekind_of(e))
-        try:
-            got = ("Ok", tuple(reconcile_nucleus(verbose=-1, **kw)))
-        except Exception as e:
-            got = ("Err", ekind_of(e))
+        ref = fresh_eval(canon)
+        for step in case.get("prefix", []):
+            if step == "cache_clear":
+                reconcile_nucleus.cache_clear()
+            else:
+                _run_kw(eval(step))
+        got = _run_kw(kw)
         return {"call": case["call"], "reference": repr(ref), "implementation": repr(got), "fails": ref != got}
     return {"fails": False, "note": "unrecognised replay"}
 
 
 KNOWN = {
-    # narrow: only the feedback failure, only when the returned mass is exactly mtol from the returned nuclide's mass
-    "C06-mtol-boundary-feedback": lambda f: bool(f.get("mtol_boundary")) and str(f.get("what", "")).startswith("output fed back is not reproduced")
+    # narrow: only the feedback failure, only for mtol > 1 u and a returned mass that rounds to another mass number
+    "C06-wide-mtol-feedback": lambda f: bool(f.get("wide_mismatch")) and str(f.get("what", "")).startswith("output fed back is not reproduced")
     and "Validation" in str(f.get("what", "")),
 }
 
@@ -855,5 +979,28 @@ ASSUMPTIONS = [
 ]
 TECHNIQUE = "Coq proof over a hand-written Gallina model (induction over clue lists, finite table facts by vm_compute) + differential correspondence against the implementation"
 DESIGN_REF = "DESIGN.md §6 C06"
-LEVEL_TEXT = ""
-LEVEL_NOTE = ""
+LEVEL_TEXT = (
+    "Machine-checked (Coq 8.16.1) theorems about Model/Nucleus.v over the shipped periodic table (regenerated from the data module "
+    "on every run), for every combination of clues, every label text and every speclabel/nonphysical/mtol setting: C06_sound "
+    "((Z,E) is a table row; every supplied clue incl. each label component agrees; A is -1 or a tabulated nuclide whose mass is the "
+    "returned mass or within mtol of it; mass within the element's isotope-mass window +-0.5 unless nonphysical; ghost flag and "
+    "lower-cased user tag as given, defaults otherwise), C06_nuclide_key_is_table_row and C06_mass_range_meaning (what 'tabulated "
+    "nuclide' and 'physical range' mean in terms of the shipped arrays), C06_default_isotope, C06_fails_closed (only ValidationError / "
+    "NotAnElementError), C06_contradiction_rejected (nine contradiction forms), C06_feedback_fixed_point (for every 0 <= mtol <= 1/4, "
+    "window edges included since the repair af456dc of the fixed finding C06-mtol-boundary-feedback, whose failing input stays in the "
+    "corpus and as a Coq Example), C06_parse_label_sound / _complete (the "
+    "recogniser accepts exactly the strings of an inductive label grammar and returns its fields). The model is tied to nucleus.py, "
+    "regex.py and periodic_table.py on every run by differential execution: every element x random isotope x random clue subsets x "
+    "consistent / one conflicting clue x label spellings x settings (exact comparison, masses as decimals), label strings (valid, "
+    "near-valid, random over the grammar's alphabet) through parse_nucleus_label vs re, window-edge masses by three-point comparison, "
+    "and on the implementation alone: the property oracle incl. feedback, a call-history stream (permuted orders, 1/1.0/True key "
+    "collisions in the lru_cache, cache_clear on/off) and a verbose-level stream.")
+LEVEL_NOTE = (
+    "Trusted: Coq kernel + vm_compute; the hand-written model (ASCII text; E argument over letters and digits; integer A/Z; finite "
+    "masses as exact rationals — binary64 rounding in the implementation is not modelled, so inputs within 1e-9 of a decision edge are "
+    "compared three-point only); harness/translate/ptable.py; CPython re/int/float/round/str and functools.lru_cache are modelled or "
+    "exercised, not verified; the correspondence harness harness/props/c06.py. The recogniser is hand-written against the NUCLEUS "
+    "pattern (a textual change of the pattern enlarges the label stream; equivalence is by differential testing plus the grammar "
+    "theorems, not by translation of the regex). The fixed-point theorem excludes mtol > 1/4 (for such tolerances neighbouring isotopes "
+    "overlap and A/mass can be accepted inconsistently, e.g. A=60, Z=27, mtol=2 returns Co-59's mass: known finding "
+    "C06-wide-mtol-feedback). No axioms (all theorems closed under the global context).")
